@@ -268,6 +268,7 @@ func (t *tr) effects(e ast.Expr, sc *scope) []eff {
 		if !t.pureNode(e.Body, t.trackedNames(sc)) {
 			t.refuse(e, "function literal that operates on tracked values")
 		}
+		t.staleAssigned(e.Body, sc)
 		return nil
 	case *ast.KeyValueExpr:
 		return append(t.effects(e.Key, sc), t.effects(e.Value, sc)...)
